@@ -15,6 +15,7 @@
 package ggql
 
 import (
+	"math"
 	"strconv"
 )
 
@@ -41,9 +42,16 @@ func (*float64Scalar) CoerceIn(v interface{}) (interface{}, error) {
 	case nil:
 		// remains nil
 	case float64:
-		// ok as is
+		if math.IsInf(tv, 0) || tv != tv {
+			v = nil
+			err = newCoerceErr(tv, "Float64")
+		}
 	case float32:
 		v = float64(tv)
+		if math.IsInf(float64(tv), 0) || tv != tv {
+			v = nil
+			err = newCoerceErr(tv, "Float64")
+		}
 	case int32:
 		v = float64(tv)
 	case int64:
@@ -52,6 +60,10 @@ func (*float64Scalar) CoerceIn(v interface{}) (interface{}, error) {
 		var f float64
 		if f, err = strconv.ParseFloat(tv, 64); err == nil {
 			v = f
+			if math.IsInf(f, 0) || f != f {
+				v = nil
+				err = newCoerceErr(tv, "Float64")
+			}
 		}
 	default:
 		v = nil
